@@ -409,6 +409,46 @@ def guarded : List Step → Bool
   | [] => true
   | st :: rest => if st.isCheck then true else (!st.isCas && guarded rest)
 
+/-! ### what is checked is what is signed (source-derived, stage `paths`, lines `fn=tpl:<function>`)
+
+  For every function that reaches the CAS: everything that happens, in source order, to the
+  variable it passes as `Template:`, from its definition to the CAS call. -/
+
+inductive TStep where
+  | define                      -- `leaf := …`
+  | assign (field : String)     -- `certTpl.DNSNames = …`
+  | call (name : String)        -- a call that receives the variable: `m.Enforce(leaf)`
+  | check (viaGate : Bool)      -- checked `ValidateCertificate(v)` / `isAllowedToSignX509Certificate(v)` on it
+  | cas (renew : Bool)          -- `x509CAService.CreateCertificate / RenewCertificate{Template: v}`
+  deriving Repr, DecidableEq
+
+def templatePaths : List (String × List TStep) :=
+  [ ("GetTLSCertificate", [.define, .assign "NotBefore", .assign "NotAfter", .assign "DNSNames",
+      .assign "IPAddresses", .assign "EmailAddresses", .assign "URIs", .check false, .cas false]),
+    ("renewContext", [.define, .assign "PublicKey", .assign "PublicKey", .assign "SubjectKeyId",
+      .assign "ExtraExtensions", .check false, .cas true]),
+    ("signX509", [.define, .call "Modify", .call "Modify", .call "Valid", .call "Enforce", .call "Enforce",
+      .check true, .call "callAuthorizingWebhooksX509", .cas false]) ]
+
+/-- calls that receive the template but only read it (`callAuthorizingWebhooksX509` serialises it
+    into the webhook request body) -/
+def readOnlyCalls : List String := ["callAuthorizingWebhooksX509"]
+
+def TStep.readOnly : TStep → Bool
+  | .call n => readOnlyCalls.contains n
+  | _ => false
+
+/-- scan: `ok` = the template has been checked and not been touched since -/
+def sealedGo (ok : Bool) : List TStep → Bool
+  | [] => false
+  | .cas _ :: _ => ok
+  | .check _ :: rest => sealedGo true rest
+  | st :: rest => if st.readOnly then sealedGo ok rest else sealedGo false rest
+
+/-- the template that reaches the CAS is the template that was checked: between the last
+    checked validation and the CAS call nothing but read-only calls touch the variable -/
+def sealed (l : List TStep) : Bool := sealedGo false l
+
 /-! ### model of the name part of `crypto/x509` `Certificate.isValid` (the independent verifier)
 
   Used only to predict the *class* of a refusal by `x509.Verify` in the end-to-end stage: for
